@@ -127,8 +127,20 @@ theorem mk_no_host {F} (ops : FOps F) (t : Ty) (ht : t ≠ .str) (r : Raw F) (cl
   | s =>
     cases r with
     | int n => cases h : ops.toSingle (ops.ofInt n) <;> simp [mk, h]
-    | flt x => cases h : ops.toSingle x <;> simp [mk, h]
-  | d => cases r <;> simp [mk]
+    | flt x => cases hf : ops.isFinite x <;> cases h : ops.toSingle x <;> simp [mk, h, hf]
+  | d =>
+    cases r with
+    | int n => simp [mk]
+    | flt x => cases hf : ops.isFinite x <;> simp [mk, hf]
+
+/-- a float that is not finite (the host's silent result of an overflow) is refused by every numeric cell type: the
+    run-time error the property calls numeric overflow -/
+theorem non_finite_traps {F} (ops : FOps F) (t : Ty) (ht : t = .s ∨ t = .d) (x : F) (h : ops.isFinite x = false) :
+    mk ops t (.flt x) = .trap "INVALID_CELL_VALUE" := by
+  rcases ht with rfl | rfl <;> simp [mk, h]
+
+/-- before the repair a DOUBLE cell took it (1D308 * 10 printed `inf`) -/
+theorem double_overflow_was_silent {F} (x : F) : mkDoubleOld x = .ok (.flt .d x) := rfl
 
 /-- on well-typed integral operands no arithmetic, logic or comparison instruction can raise a host exception:
     the outcome is a cell or a reported trap -/
